@@ -106,3 +106,10 @@ def skeleton(toks):
 
 def bad_tokens(toks):
     return [t for t in toks if t.kind in ("stray", "comment", "unterminated")]
+
+
+def athena_identifier_ref(name):
+    """reference for the Athena dialect's documented identifier rule (lower case; only ASCII letters, digits and the underscore,
+    every other character becomes an underscore) - written from the rule, not from the library's regular expression"""
+    ok = set("abcdefghijklmnopqrstuvwxyz0123456789_")
+    return "".join(c if c in ok else "_" for c in name.lower())
